@@ -2,14 +2,18 @@
    Everything the OCaml runner of this property executes goes through run_case.
 
    kind "collect": one call of MeasureClockOffsets under virtual time
-     args  D [ [kind t e ok ts off] ... ] [ [ts off err] ... ] [ probe times ]
-     outs  class R [ [ts off err] ... ] [ completion time of every clock ] [ goroutines at every probe ]
-   kind "history": several calls on ONE collector object
-     args  [ [start D [clocks] [ms0]] ... ] tend
-     outs  [ [class R [ms'] [completions]] ... ] goroutines-at-tend
+     args  ctx [ [kind t e ok ts off] ... ] [ [ts off err] ... ] [ probe times ]
+     outs  class R [ [ts off err] ... ] [ completion time of every clock ] [ goroutines at every probe ] goroutines-after-teardown
+   kind "history": several calls on ONE collector object, one after the other
+   kind "race": several calls on ONE collector object made by different goroutines at the same instant
+     args  [ [start ctx [clocks] [ms0]] ... ] tend variant
+     outs  [ [class R [ms'] [completions]] ... ] goroutines-at-tend goroutines-after-teardown
+   ctx = [hasD D hasC C F]: a context with deadline D (if hasD), cancelled explicitly at C (if
+   hasC) and in any case at F (the harness's final cancel, after the last observation); its Done
+   channel closes at the earliest of these.
    clock scripts: kind 0/3 complete at t whatever the context does; kind 1 completes at t, or
    when the context is done and then e later, whichever is first; kind 2 waits for the context
-   to be done and completes e later.
+   to be done and completes e later; kind 4 never completes (until the case is torn down).
    class: 0 returned, 1 panic (lengths), 2 panic (too many in progress), 3 panic (inconsistent count), 4 other panic. *)
 From Coq Require Import ZArith List String Bool.
 From ST Require Import Base.Value Model.Collect Extract.GlueBase.
@@ -34,10 +38,18 @@ Definition script_time (D kind t e : Z) : Z :=
   else if kind =? 1 then (if t0 <=? D0 then t0 else D0 + e0)
   else D0 + e0.
 
+(* the instant at which the context is done *)
+Definition ctx_done (v : value) : option Z :=
+  match v with
+  | VL [VZ hasD; VZ D; VZ hasC; VZ C; VZ F] =>
+      let d1 := if hasD =? 0 then Z.max 0 F else Z.min (Z.max 0 F) (Z.max 0 D) in
+      Some (if hasC =? 0 then d1 else Z.min d1 (Z.max 0 C))
+  | _ => None end.
+
 Definition clock_of_value (D : Z) (v : value) : option clock :=
   match v with
   | VL [VZ kind; VZ t; VZ e; VZ ok; VZ ts; VZ off] =>
-      Some {| c_done := Some (script_time D kind t e);
+      Some {| c_done := if kind =? 4 then None else Some (script_time D kind t e);
               c_res := {| m_ts := ts; m_off := off; m_err := (ok =? 0) |} |}
   | _ => None end.
 Fixpoint clock_list (D : Z) (l : list value) : option (list clock) :=
@@ -46,10 +58,13 @@ Fixpoint clock_list (D : Z) (l : list value) : option (list clock) :=
   | v :: r => match clock_of_value D v, clock_list D r with Some c, Some cs => Some (c :: cs) | _, _ => None end
   end.
 
-Definition scen_of (D : Z) (clks ms0 : list value) : option scen :=
-  match clock_list D clks, meas_list ms0 with
-  | Some cs, Some m0 => Some {| s_deadline := D; s_clocks := cs; s_ms0 := m0 |}
-  | _, _ => None end.
+Definition scen_of (ctx : value) (clks ms0 : list value) : option scen :=
+  match ctx_done ctx with
+  | Some D =>
+      match clock_list D clks, meas_list ms0 with
+      | Some cs, Some m0 => Some {| s_deadline := D; s_clocks := cs; s_ms0 := m0 |}
+      | _, _ => None end
+  | None => None end.
 
 Definition fuel_of (sc : scen) : nat := (2 * nclk sc + 6)%nat.
 
@@ -100,13 +115,19 @@ Fixpoint probes_oracle (sc : scen) (r : Z) (tps cnts : list Z) : bool :=
   | _, _ => true
   end.
 
-Definition ctimes (sc : scen) : list Z :=
-  map (fun k => match ctime sc k with Some t => t | None => -1 end) (seq 0 (nclk sc)).
+(* the calls of the clocks returned when the scenario says (a clock that never completes is
+   released when the case is torn down; what is recorded for it then does not matter) *)
+Fixpoint comps_from (sc : scen) (k : nat) (comps : list Z) : bool :=
+  match comps with
+  | [] => Nat.eqb k (nclk sc)
+  | c :: r => match ctime sc k with Some t => (t =? c) | None => true end && Nat.ltb k (nclk sc) && comps_from sc (S k) r
+  end.
+Definition comps_agree (sc : scen) (comps : list Z) : bool := comps_from sc 0 comps.
 
 (* one round that was let in: (agree, oracle) *)
 Definition round_verdict (sc : scen) (r : Z) (ms' : list meas) (comps tps cnts : list Z) : bool * bool :=
   let agree :=
-    (r =? expected_ret sc) && list_eqb Z.eqb comps (ctimes sc) &&
+    (r =? expected_ret sc) && comps_agree sc comps &&
     match find_schedule sc r ms' with
     | Some g => probes_agree sc g tps cnts
     | None => false
@@ -118,8 +139,8 @@ Record hobs := { ho_start : Z; ho_sc : scen; ho_cls : Z; ho_ret : Z; ho_ms : lis
 
 Definition hobs_of (a o : value) : option hobs :=
   match a, o with
-  | VL [VZ s; VZ D; VL clks; VL ms0], VL [VZ cls; VZ r; VL ms'; VL comps] =>
-      match scen_of D clks ms0, meas_list ms', getZs comps with
+  | VL [VZ s; ctx; VL clks; VL ms0], VL [VZ cls; VZ r; VL ms'; VL comps] =>
+      match scen_of ctx clks ms0, meas_list ms', getZs comps with
       | Some sc, Some m', Some cs => Some {| ho_start := s; ho_sc := sc; ho_cls := cls; ho_ret := r; ho_ms := m'; ho_comps := cs |}
       | _, _, _ => None end
   | _, _ => None end.
@@ -159,7 +180,7 @@ Fixpoint hist_walk (id : nat) (g : gst) (act : list (nat * Z)) (hs : list hobs)
       let cls := class_of out in
       if cls =? 0 then
         let sched := find_schedule sc (ho_ret h) (ho_ms h) in
-        let a := ok1 && (ho_cls h =? 0) && (ho_ret h =? expected_ret sc) && list_eqb Z.eqb (ho_comps h) (ctimes sc)
+        let a := ok1 && (ho_cls h =? 0) && (ho_ret h =? expected_ret sc) && comps_agree sc (ho_comps h)
                  && match sched with Some _ => true | None => false end in
         let o := if ho_cls h =? 0 then C16_round_ok sc (ho_ret h) (ho_ms h) else true in
         let '(a', o', l) := hist_walk (S id) g2 ((id, ho_start h + expected_ret sc) :: act1) rest in
@@ -177,6 +198,18 @@ Fixpoint alive_sum (l : list (Z * scen * list nat)) (tend : Z) : option Z :=
       match alive_at sc g (tend - s), alive_sum r tend with Some x, Some y => Some (x + y) | _, _ => None end
   end.
 
+(* all orders of a list *)
+Fixpoint insert_all {A} (x : A) (l : list A) : list (list A) :=
+  match l with
+  | [] => [[x]]
+  | y :: r => (x :: l) :: map (fun t => y :: t) (insert_all x r)
+  end.
+Fixpoint perms {A} (l : list A) : list (list A) :=
+  match l with
+  | [] => [[]]
+  | x :: r => flat_map (insert_all x) (perms r)
+  end.
+
 Definition gobs_of (h : hobs) : gobs :=
   {| go_start := ho_start h; go_lens := Nat.eqb (List.length (s_ms0 (ho_sc h))) (nclk (ho_sc h));
      go_out := ho_cls h; go_ret := ho_start h + ho_ret h |}.
@@ -189,24 +222,41 @@ Definition hist_leak_ok (hs : list hobs) (tend cnt : Z) : bool :=
 Definition glue_C16 (k : string) (a o : list value) : option verdict :=
   if is k "collect" then
     match a, o with
-    | [VZ D; VL clks; VL ms0; VL tps], [VZ cls; VZ r; VL ms'; VL comps; VL cnts] =>
-        match scen_of D clks ms0, meas_list ms', getZs comps, getZs tps, getZs cnts with
+    | [ctx; VL clks; VL ms0; VL tps], [VZ cls; VZ r; VL ms'; VL comps; VL cnts; VZ after] =>
+        match scen_of ctx clks ms0, meas_list ms', getZs comps, getZs tps, getZs cnts with
         | Some sc, Some m', Some cs, Some tps, Some cnts =>
             if Nat.eqb (List.length (s_ms0 sc)) (nclk sc) then
               let '(ag, orc) := round_verdict sc r m' cs tps cnts in
-              Some (relational ((cls =? 0) && ag) ((cls =? 0) && orc))
+              Some (relational ((cls =? 0) && ag && (after =? 0)) ((cls =? 0) && orc && (after =? 0)))
             else
               Some (relational ((cls =? 1) && meas_list_eqb m' (s_ms0 sc)) true)
         | _, _, _, _, _ => None end
     | _, _ => None end
   else if is k "history" then
     match a, o with
-    | [VL ops; VZ tend], [VL obs; VZ cnt] =>
+    | [VL ops; VZ tend; VZ _], [VL obs; VZ cnt; VZ after] =>
         match hobs_list ops obs with
         | Some hs =>
             let '(ag, orc, l) := hist_walk 0 ginit [] hs in
-            let agree := ag && match alive_sum l tend with Some x => x =? cnt | None => false end in
-            Some (relational agree (orc && C16_guard_ok (map gobs_of hs) && hist_leak_ok hs tend cnt))
+            let agree := ag && (after =? 0) && match alive_sum l tend with Some x => x =? cnt | None => false end in
+            Some (relational agree (orc && C16_guard_ok (map gobs_of hs) && C16_concurrent_ok (map gobs_of hs)
+                                    && hist_leak_ok hs tend cnt && (after =? 0)))
+        | None => None end
+    | _, _ => None end
+  else if is k "race" then
+    (* the callers reached the guard in SOME order: the observation must be what the model does for one of them *)
+    match a, o with
+    | [VL ops; VZ tend; VZ _], [VL obs; VZ cnt; VZ after] =>
+        match hobs_list ops obs with
+        | Some hs =>
+            let agree :=
+              (after =? 0) &&
+              existsb (fun hs' =>
+                         let '(ag, _, l) := hist_walk 0 ginit [] hs' in
+                         ag && match alive_sum l tend with Some x => x =? cnt | None => false end)
+                      (perms hs) in
+            let orc := forallb (fun h => if ho_cls h =? 0 then C16_round_ok (ho_sc h) (ho_ret h) (ho_ms h) else true) hs in
+            Some (relational agree (orc && C16_concurrent_ok (map gobs_of hs) && hist_leak_ok hs tend cnt && (after =? 0)))
         | None => None end
     | _, _ => None end
   else None.
